@@ -22,6 +22,13 @@ def quoter_fn(prog):
     return hits[0]
 
 
+def quoter_body(prog):
+    """The quoter with its private helpers spliced in (accessors stay calls)."""
+    from engine.inline import inlined_body
+    acc = accessors(prog)
+    return inlined_body(prog, quoter_fn(prog), stop=lambda g: g in acc or (prog.fns[g].get("impl") or {}).get("self", "").startswith(SPLIT_TY))
+
+
 def split_fn(prog):
     hits = [k for k, f in prog.fns.items() if (f.get("impl") or {}).get("self", "").startswith(SPLIT_TY)
             and f.get("inputs") == ["&str", "bool"]]
@@ -55,7 +62,7 @@ def run(ctx):
     chk.not_decided = ["equality of the on/off lists after un-curling for every input (needs value-level facts about the splitter and okkhor)"]
     q = quoter_fn(prog)
     acc = accessors(prog)
-    qb = prog.body(q)
+    qb = quoter_body(prog)
 
     # ---------------- R1
     r1 = chk.rule("C17.R1", "quoter: only bypass is an empty word; writes only the two wrapping parts; character maps",
